@@ -222,7 +222,7 @@ func collectSites(v any, path string, depth int, out *[]site, setter func(any)) 
 	}
 }
 
-var mutKinds = []string{"drop", "rename", "upper", "dup-same", "dup-other", "retype", "null", "extra"}
+var mutKinds = []string{"drop", "rename", "upper", "dup-same", "dup-other", "dup-upper", "dup-upper-first", "retype", "null", "extra"}
 
 func retyped(v any) any {
 	switch v.(type) {
@@ -282,6 +282,29 @@ func mutateAt(root any, si int, kind string) (res any, path string, ok bool) {
 				return nil, "", false // duplicates of slices/maps/structs: outside the modelled domain
 			}
 			no = append(append(JObj{}, o...), JKV{kv.K, other})
+		case "dup-upper", "dup-upper-first":
+			// a second member whose name differs in letter case only, with ANOTHER value, after or
+			// before the original: Go's decoder matches names case-insensitively and the last one wins —
+			// every reader of the file has to agree on which value that is
+			// (seeded change c01-dsse-payload-key-case-differential)
+			up := strings.ToUpper(kv.K)
+			if up == kv.K {
+				return nil, "", false
+			}
+			var other any
+			switch kv.V.(type) {
+			case string:
+				other = "other"
+			case JNum, int:
+				other = JNum("3")
+			default:
+				return nil, "", false
+			}
+			if kind == "dup-upper" {
+				no = append(append(JObj{}, o...), JKV{up, other})
+			} else {
+				no = append(append(append(JObj{}, o[:s.idx]...), JKV{up, other}), o[s.idx:]...)
+			}
 		case "retype":
 			no = append(JObj{}, o...)
 			no[s.idx].V = retyped(kv.V)
